@@ -83,7 +83,7 @@ def instantiate(vm, mir, prog, holes):
 ERRCLS = ['EnvironmentError', 'ValError', 'WriteValError', 'ExecError', 'ProduceValError']
 
 
-def run_both(vm, mir, prog, stdin=(), out_fail_at=None, in_fail_at=None, describe=None, max_iter=8, real_lines=None, out_fail_mode='error'):
+def run_both(vm, mir, prog, stdin=(), out_fail_at=None, in_fail_at=None, describe=None, max_iter=8, real_lines=None, out_fail_mode='error', chunked=False):
     """returns list of findings.  stdin: [(z3 String term without terminator, terminated: bool)]"""
     out = []
     def bad(role, detail, prop=None):
@@ -94,7 +94,7 @@ def run_both(vm, mir, prog, stdin=(), out_fail_at=None, in_fail_at=None, describ
         out.append(finding('violation', role, detail, describe(m) if describe else None, vm.notes))
     lines = real_lines if real_lines is not None else [SymStr(z3.Concat(t, zs('\n')) if term else t) for t, term in stdin]
     vm.io_events = []
-    res, odata, idata = exec_in_vm(vm, mir, prog, lines, out_fail_at, in_fail_at, out_fail_mode)
+    res, odata, idata = exec_in_vm(vm, mir, prog, lines, out_fail_at, in_fail_at, out_fail_mode, chunked)
     res = conc(vm, res)
     ri = RefInterp(vm, mir, stdin, out_fail_at, in_fail_at, max_iter=max_iter)
     ex = Exec(ri); want = ('ok', None)
@@ -178,7 +178,7 @@ def native_replay(ctx, template, f):
     compare stdout / outcome / stream-call order with the reference interpreter run concretely under the same plan"""
     cex = f.get('cex') or {}
     out = {'reproduced': None}
-    skip = ('stdin', 'template', 'out_fail_at', 'in_fail_at', 'out_fail_mode', 'program')
+    skip = ('stdin', 'template', 'out_fail_at', 'in_fail_at', 'out_fail_mode', 'program', 'in_first_chunk_bytes')
     src = program_text(template, {k: v for k, v in cex.items() if k not in skip})
     if src is None: return out
     stdin = ''.join(t + ('\n' if term else '') for t, term in cex.get('stdin', []))
@@ -187,6 +187,7 @@ def native_replay(ctx, template, f):
     req = {'op': 'program', 'src': src, 'stdin': stdin}
     if of is not None: req.update(out_fail_at=of, out_fail_mode=mode)
     if inf is not None: req['in_fail_at'] = inf
+    if cex.get('in_first_chunk_bytes'): req['in_first_chunk_bytes'] = cex['in_first_chunk_bytes']
     res = {}
     for prof in ('dev', 'release'):
         nv = ctx.native(prof).call(req, timeout=20)
@@ -209,7 +210,7 @@ def native_replay(ctx, template, f):
                 for prof in ('dev', 'release'):
                     nv = out[prof + '_native']
                     # the native reader is asked once more at end of input by BufReader only when a listen needs it: same count as the reference
-                    res[prof] = bool('panic' in nv or nv.get('stdout') != want_out or (nv.get('result') == 'err') != want_err or (nv.get('events') is not None and nv.get('events') != want_ev))
+                    res[prof] = bool('panic' in nv or nv.get('stdout') != want_out or (nv.get('result') == 'err') != want_err or (nv.get('events') is not None and not cex.get('in_first_chunk_bytes') and nv.get('events') != want_ev))
                 out['reference'] = {'stdout': want_out, 'fails': want_err, 'events': want_ev}
         except (Crash, Unmodelled, Exception) as e:
             out['reference_error'] = f'{type(e).__name__}: {e}'[:200]
